@@ -22,7 +22,7 @@ LEVEL = 'exploration'
 RULE = (
     'Event tables with 1-6 individuals (ids 1..n, increasing with gaps, or decreasing; always grouped; id column '
     "named ID or SUBJ), 1-12 records each, TIME non-decreasing with ties (optionally restarting at reset events), "
-    'records = observation / dose (AMT>0) / other event (EVID 2) / reset (EVID 3) / reset+dose (EVID 4) / missing '
+    'records = observation / dose (AMT>0, 10..50 or fractional 0.25 0.5 0.75 1.5 2.5) / other event (EVID 2) / reset (EVID 3) / reset+dose (EVID 4) / missing '
     'observation (MDV 1), optional columns MDV EVID CMT ADMID RATE SS II ADDL DVID and 0-2 covariates (constant or '
     'time varying, with missing values NaN in some records incl. the first record of an individual; DV of non-observation records may be missing too), float or integer flag columns, ADDL 0-3 with II in {2,4,6,12,24} so that additional doses overlap '
     'later records, attached to create_basic_pk_model(iv|oral|ivoral) with a DataInfo typed column by column. '
@@ -149,6 +149,11 @@ def prep(spec):
     classes = sorted(feats) + [k for k, v in sorted(tab.flags.items()) if v] + [tab.kind]
     if restart_individuals(tab):
         classes.append('time_restart_effective')
+    amts = [r['AMT'] for r in tab.records if r['AMT'] != 0]
+    if any(0 < x < 1 for x in amts):
+        classes.append('amt_between_0_and_1')
+    if any(x != int(x) for x in amts):
+        classes.append('amt_non_integer')
     return tab, feats, classes
 
 
